@@ -121,7 +121,7 @@ def run_impl(case):
             for mb in buf.get(case["batch_size"]):
                 if case["dict_obs"]:
                     oa = mb.observations["a"].numpy()
-                    ob = mb.observations["b"].numpy().reshape(len(oa), -1)
+                    ob = mb.observations["b"].numpy().reshape(len(oa), 3)
                     obs_tags = [sorted(set([float(v) for v in oa[k]] + [float(v) for v in ob[k]])) for k in range(len(oa))]
                 else:
                     o = mb.observations.numpy()
@@ -278,16 +278,24 @@ def nontrivial(case, impl):
 
 
 def run_cases(chk: Check, cases):
-    impls = [run_impl(c) for c in cases]
+    impls = []
+    for c in cases:
+        try:
+            impls.append(run_impl(c))
+        except Exception as e:  # the implementation crashed on a legal input: reported, not hidden
+            impls.append({"exception": f"{type(e).__name__}: {e}"})
     exprs, spans = [], []
     for c, im in zip(cases, impls):
-        e = model_exprs(c, im)
+        e = [] if "exception" in im else model_exprs(c, im)
         spans.append((len(exprs), len(exprs) + len(e)))
         exprs += e
     vals = common.coq_eval_many(f"{chk.pid}", HEADER, exprs, shard=120, procs=16)
     results = []
     for c, im, (a, b) in zip(cases, impls, spans):
-        results.append(compare(c, im, vals[a:b]))
+        if "exception" in im:
+            results.append([("oracle-implementation-raised", "RolloutBuffer add/compute_returns_and_advantage/get raised " + im["exception"])])
+        else:
+            results.append(compare(c, im, vals[a:b]))
     return impls, results
 
 
@@ -313,7 +321,7 @@ def main():
         hist["batch_none"] += int(c["batch_size"] is None)
         if c["batch_size"] and (c["T"] * c["n"]) % c["batch_size"]:
             hist["batch_not_dividing"] += 1
-        if nontrivial(c, im):
+        if "exception" not in im and nontrivial(c, im):
             distinct.add(json.dumps({k: c[k] for k in c if k != "id"}, sort_keys=True))
         if probs:
             sig = probs[0][0]
@@ -321,7 +329,7 @@ def main():
             chk.violation(
                 sig if oracle_says_bad else "model-correspondence-" + sig,
                 "; ".join(m for _, m in probs[:3]),
-                {"case": c, "problems": probs[:10], "impl_adv": im["adv"], "impl_perms": im["perms"],
+                {"case": c, "problems": probs[:10], "impl_adv": im.get("adv"), "impl_perms": im.get("perms"),
                  "correspondence": "harness/c05.py vs Model.Gae.run_col / Model.Minibatch.minibatches"},
                 found_input=oracle_says_bad,
             )
